@@ -133,3 +133,9 @@ Print Assumptions C07_meek_exclusion_is_within_the_surplus.
 Theorem C07_fixed_point_min_is_minimal : forall p d S (ZL : zlike (Fixed p d) S), exact (Fixed p d) = false -> vmin_minimal (Fixed p d) S ZL.
 Proof. exact (fun p d S ZL Hex => vmin_fold_minimal (Fixed p d) S ZL Hex (vmin_fold_fixed p d)). Qed.
 Print Assumptions C07_fixed_point_min_is_minimal.
+
+(* ... and for Guarded arithmetic with guard 0, which IS the fixed-point instance (C13_guard0_instance; functional extensionality) *)
+Theorem C07_guard0_min_is_minimal : forall p d s S (ZL : zlike (Guarded p 0 d s) S), 1 <= p -> 0 <= d ->
+  exact (Guarded p 0 d s) = false -> vmin_minimal (Guarded p 0 d s) S ZL.
+Proof. exact vmin_minimal_guard0. Qed.
+Print Assumptions C07_guard0_min_is_minimal.
